@@ -174,7 +174,9 @@ def check(run: Run) -> None:
         ok = len(evs) == 1 and evs[0].must and evs[0].args == (("param", fi.pos_params[1]), ("const", op)) and not evs[0].kwargs
         ok = ok or (len(evs) == 1 and evs[0].must and evs[0].args == (("param", fi.pos_params[1]),) and evs[0].kwargs == (("caller_name", ("const", op)),))
         run.check(ok, "C03.R3", fi, stmt_of(evs[0].call) if evs and evs[0].owner is fi else fi.node, f"{op} recovers its own argument with caller name '{op}'", f"{op} does not call parse_as_ast(<its lambda argument>, '{op}'): lambdas of other operators on the same line are candidates")
-    pa = m.find_func("parse_as_ast", in_module=mod)
+    from ..lib import view as _view
+
+    pa = _view(m, m.find_func("parse_as_ast", in_module=mod))
     fpa = ctx.analysis(pa)
     from ..lib import call_events
 
